@@ -1215,6 +1215,8 @@ const ZKIR_PARAMS: &[u64] = &[
     256,
     1000,
     4096,
+    5000,
+    8192,
     65535,
     65536,
     (1 << 31) - 1,
@@ -1270,7 +1272,7 @@ fn zkir_grammar_mutations(text: &str, huge: bool) -> Vec<String> {
     let Some(instrs) = root.get("instructions").and_then(|x| x.as_array()).cloned() else { return out };
     let rebuild = |ins: Vec<Json>| json!({ "instructions": ins }).to_string();
     let params: Vec<u64> =
-        ZKIR_PARAMS.iter().copied().filter(|p| if huge { *p > 4096 } else { *p <= 4096 }).collect();
+        ZKIR_PARAMS.iter().copied().filter(|p| if huge { *p > 8192 } else { *p <= 8192 }).collect();
     // names defined by the program
     let mut names: Vec<String> = vec![];
     for i in &instrs {
@@ -3013,6 +3015,53 @@ fn main() {
     let planned = planned_cases(&plan);
     for u in &plan.units {
         ag.units.insert(u.id, u.body.clone());
+    }
+    if ctx.extra.contains_key("plan-only") {
+        let mut by: BTreeMap<String, u64> = BTreeMap::new();
+        for u in &plan.units {
+            let t = u.body["t"].as_str().unwrap_or("");
+            let f = u.body["f"].as_str().unwrap_or("");
+            *by.entry(format!("{}/{} {}", target_object(t), fmt_name(t, f), u.body["m"].as_str().unwrap_or(""))).or_insert(0) += u.cases();
+        }
+        for (k, v) in &by {
+            println!("{v:9} {k}");
+        }
+        println!("{planned:9} total");
+        tot::remove_scratch(&scratch);
+        std::process::exit(0);
+    }
+    // control of the independent membership oracle: honest raw points pass, a perturbed one fails
+    {
+        let mut good = true;
+        for r in &corpus.rels {
+            let enc = unhex(&r.vk_r);
+            let h = lcp(&unhex(&r.vk_p), &enc).min(64);
+            let mut off = h;
+            let mut first = true;
+            while off + 96 <= enc.len() {
+                let slot = &enc[off..off + 96];
+                good &= g1_raw_on_curve(slot) == Some(true);
+                if first && slot[0] & 0xc0 == 0 {
+                    let mut bad = slot.to_vec();
+                    bad[95] ^= 1;
+                    good &= g1_raw_on_curve(&bad) == Some(false);
+                    first = false;
+                }
+                off += 96;
+            }
+        }
+        let pvr = unhex(&corpus.pv_r);
+        good &= g2_raw_on_curve(&pvr) == Some(true);
+        let mut bad = pvr.clone();
+        if let Some(b) = bad.last_mut() {
+            *b ^= 1;
+        }
+        good &= g2_raw_on_curve(&bad) == Some(false);
+        if !good {
+            ag.rep.inconclusive("control of the raw-point membership oracle failed (honest point rejected or perturbed point accepted by the harness oracle)");
+        } else {
+            ag.rep.count("membership_oracle_control_ok");
+        }
     }
     let shards = shards_of(&plan, children, thorough);
     eprintln!("[c16] corpus {:.1}s, {} planned cases in {} shards", corpus.build_secs, planned, shards.len());
